@@ -15,16 +15,18 @@ VARIABLE case
 
 \* stale: the capabilities of cfg were advertised in the greeting, the client has logged in since (tagged OK without
 \* CAPABILITY code) and the server has not answered the CAPABILITY command yet
-GenInit == Init /\ case = [cmd |-> "none", class |-> "none", react |-> "none", stale |-> FALSE]
+\* unauth: UTF8=ACCEPT was enabled, then the client sent UNAUTHENTICATE (answered OK with the same capabilities)
+GenInit == Init /\ case = [cmd |-> "none", class |-> "none", react |-> "none", stale |-> FALSE, unauth |-> FALSE]
 
 GenNext ==
   /\ phase = "idle" /\ case.cmd = "none"
-  /\ \E cmd \in Cmds, react \in Reactions, stale \in BOOLEAN :
+  /\ \E cmd \in Cmds, react \in Reactions, stale \in BOOLEAN, unauth \in BOOLEAN :
        \E class \in (IF cmd = "APPEND" THEN AppendSizes ELSE IF cmd = "AUTHENTICATE" THEN {"plain"} ELSE Classes) :
          /\ stale => (cmd \notin {"LOGIN", "AUTHENTICATE"} /\ ~cfg.utf8)
          /\ cmd = "AUTHENTICATE" => (react = "grant" /\ ~cfg.utf8)
          /\ cmd # "AUTHENTICATE" => ~cfg.saslir       \* SASL-IR matters to AUTHENTICATE only        \* nothing can have been enabled before the login
-         /\ case' = [cmd |-> cmd, class |-> class, react |-> react, stale |-> stale]
+         /\ unauth => (cfg.utf8 /\ ~stale /\ cmd # "AUTHENTICATE")
+         /\ case' = [cmd |-> cmd, class |-> class, react |-> react, stale |-> stale, unauth |-> unauth]
          /\ PrintT(<<"T", ToJson([cfg |-> cfg, case |-> case'])>>)
   /\ phase' = "done" /\ UNCHANGED <<cfg, wrote, status, alive>>
 =============================================================================
